@@ -122,7 +122,7 @@ def gen_int(r):
 def gen_decimal_text(r):
     whole = r.choice(['0', '1', '2', '3', '10', '12', '72', '100', ''])
     sep = r.choice(['.', '.', ','])
-    frac = r.choice(['', '', '5', '25', '0', '125', '333'])
+    frac = r.choice(['', '', '5', '25', '0', '125', '333', '05', '007', '50', '090'])        # (also fractions that begin or end with zeros)
     if not whole and not frac:
         frac = '5'
     if frac or r.random() < 0.2:
